@@ -16,6 +16,8 @@
    * mtimes are non-negative, given in milliseconds (fractional stamps; the harness uses
      multiples of 1/8 s, exact in binary floating point); md5 values are < 2^128.
    * the temporary file of a store is assumed not to pre-exist (own pid).
+   * a crash is a prefix of the SYSTEM CALLS of the store; text still sitting in the file
+     object's buffer is lost (see chunks_at_close / chunks_per_char).
    * [keys] describes the listing WITH fixes/C27-skip-update-temp.patch applied
      ([keys_gen false] is the behaviour of the pinned tree). *)
 From Coq Require Import List NArith ZArith Bool Arith.
@@ -393,14 +395,23 @@ Definition mkdir_ops (s : fs) (dir : path) : list op :=
   flat_map (fun p => match lookup s p with None => [Mkdir p MODE_DIR] | Some _ => [] end)
            (prefixes_from [] dir).
 
-Definition chunks_of (content : str) : list (list N) := map (fun c => [c]) content.
+(* How the text reaches the staging file.  _setitem hands it to a BUFFERED text file object
+   (open(fp, "w", 32768)); the bytes reach the file only when the buffer is flushed: whenever it
+   fills up and, at the latest, at close().  A flush schedule is a list of chunks whose
+   concatenation is the text; every theorem about the store holds for ALL schedules.
+   [chunks_at_close]: what really happens for an entry below 32 KiB (one write at close);
+   [chunks_per_char]: the finest schedule (what harness/fsx.py produces by making the file
+   object unbuffered: one write per character handed to writelines). *)
+Definition chunks_at_close (content : str) : list (list N) := [content].
+Definition chunks_per_char (content : str) : list (list N) := map (fun c => [c]) content.
 Definition perm_ops (tmp : path) (gid : N) : list op := [Chown tmp None (Some gid); Chmod tmp PERMS].
 
-(* flat_hash._setitem: every mutating call, in order (one write per character: the file
-   object's writelines is handed a str) *)
-Definition store_ops (s : fs) (loc : path) (pid gid : N) (cpv : path) (content : str) : list op :=
+(* flat_hash._setitem: every mutating SYSTEM CALL, in order: mkdirs, creation of the staging
+   file, the flushes of the buffered text (all of them no later than close()), and only after
+   the close: chown, chmod, rename onto the final name *)
+Definition store_ops (s : fs) (loc : path) (pid gid : N) (cpv : path) (chunks : list (list N)) : list op :=
   let tmp := tmp_path loc pid cpv in
-  let rep := replace_ops tmp (target_path loc cpv) MODE_TMP (chunks_of content) (perm_ops tmp gid) in
+  let rep := replace_ops tmp (target_path loc cpv) MODE_TMP chunks (perm_ops tmp gid) in
   if isdir s (parent tmp) then rep else mkdir_ops s (parent tmp) ++ rep.
 
 (* cache[cpv] on a filesystem state *)
@@ -489,9 +500,13 @@ Definition enc_op (o : op) : val :=
   end.
 
 Record crash_case := { cc_lay : layout; cc_loc : bool; cc_files : list (path * str);
-                       cc_pid : N; cc_gid : N; cc_cpv : path; cc_entry : entry; cc_k : nat }.
-Definition mk_cc l b f p g c e k :=
-  {| cc_lay := l; cc_loc := b; cc_files := f; cc_pid := p; cc_gid := g; cc_cpv := c; cc_entry := e; cc_k := k |}.
+                       cc_pid : N; cc_gid : N; cc_cpv : path; cc_entry : entry; cc_k : nat;
+                       cc_buffered : bool }.   (* true: real buffering (one flush at close) *)
+Definition mk_cc l b f p g c e k bf :=
+  {| cc_lay := l; cc_loc := b; cc_files := f; cc_pid := p; cc_gid := g; cc_cpv := c; cc_entry := e;
+     cc_k := k; cc_buffered := bf |}.
+Definition cc_chunks (c : crash_case) (content : str) : list (list N) :=
+  if cc_buffered c then chunks_at_close content else chunks_per_char content.
 
 (* stream "ops": the mutating calls of one store; the run of consecutive writes is reported
    as one item [write; path; all data; number of write calls] to keep the cases file small *)
@@ -518,7 +533,7 @@ Definition run_ops (c : crash_case) : val :=
   match serialize (cc_lay c) (cc_entry c) with
   | None => VErr (lit "KeyError")
   | Some content =>
-      let ops := store_ops (mk_fs (cc_loc c) (cc_files c)) LOC (cc_pid c) (cc_gid c) (cc_cpv c) content in
+      let ops := store_ops (mk_fs (cc_loc c) (cc_files c)) LOC (cc_pid c) (cc_gid c) (cc_cpv c) (cc_chunks c content) in
       VL (enc_ops (S (length ops)) ops)
   end.
 (* stream "crash": the first k (successful) calls of the store happen, then the machine
@@ -528,7 +543,7 @@ Definition run_crash (c : crash_case) : val :=
   | None => VErr (lit "KeyError")
   | Some content =>
       let s0 := mk_fs (cc_loc c) (cc_files c) in
-      let sk := run (firstn (cc_k c) (store_ops s0 LOC (cc_pid c) (cc_gid c) (cc_cpv c) content)) s0 in
+      let sk := run (firstn (cc_k c) (store_ops s0 LOC (cc_pid c) (cc_gid c) (cc_cpv c) (cc_chunks c content))) s0 in
       VL [enc_result (read_entry (cc_lay c) sk LOC (cc_cpv c));
           VL (map (fun f => enc_result (read_entry (cc_lay c) sk LOC (fst f))) (cc_files c));
           VL (map VS (sort_strs (keys sk LOC)))]
